@@ -23,6 +23,8 @@ for m in metas:
   cell = '%s — %s' % (verdict, m.get('caught_by', ''))
   if m.get('note'):
     cell += ' (%s)' % m['note']
+  if m.get('rebased'):
+    cell += ' [patch rebased onto the fixed tree and re-checked]'
   rows.append('| %s | %s | %s | %s |' % (m['seed_id'], m['property'],
                                         m['needs_to_manifest'], cell))
 summary = ('%d changes so far: %d caught at once by the quick command, %d missed '
